@@ -69,6 +69,7 @@ class Case:
         self.scal = {}
         self.tens = {}
         self.pname = None
+        self.rk_eps = 0.0
         if kind == "elasticity":
             self.eto0 = rand_dir(g, n) * 10 ** g.uniform(-6, -2.5)
             self.de = M.rand_increment(g, n, hyp0, -6, -2.5)
@@ -138,7 +139,7 @@ class Case:
     def tol_strain(self, n):
         sc = max([float(np.max(np.abs(v))) for v in self.tens.values()] + [float(np.max(np.abs(self.de))), float(np.max(np.abs(self.eto0)))]
                  + [abs(x) for x in self.scal.values()])
-        return (2000 * self.rk_eps if self.explicit else 200 * (n + 2) * EPS_CONV) + 256 * ULP * sc
+        return (2000 * self.rk_eps if self.explicit else 200 * (n + 2) * EPS_CONV) + 4096 * ULP * sc
 
     def describe(self):
         d = {"behaviour": self.name, "young": self.young, "nu": self.nu, "dt": self.dt, "eto0": hexs(self.eto0), "deto": hexs(self.de),
@@ -232,7 +233,8 @@ def mon_isotropic(R, s, g, ncase):
             Kr = np.array(o0["K"][:36]).reshape(6, 6)
             Kq = np.array(o["K"][:36]).reshape(6, 6)
             sc = float(np.max(np.abs(Kr)))
-            R.rec("%s:rotation:tangent" % key, float(np.max(np.abs(Kq - A @ Kr @ A.T))), 1e-7 * sc, case,
+            R.rec("%s:rotation:tangent" % key, float(np.max(np.abs(Kq - A @ Kr @ A.T))),
+                  (1e-5 if s.get("algo") == "NewtonRaphson_NumericalJacobian" else 1e-7) * sc, case,
                   "tangent operator of the rotated loading is not the rotated tangent operator")
     R.distinct += ncase
     # (c) plane stress: zero axial stress; same response as 3D driven with the axial strain found
